@@ -82,6 +82,7 @@ type Plan struct {
 	Relay2  *Relay            `json:"relay2,omitempty"`  // a second one, with its own validators
 	Fabric  string            `json:"fabric,omitempty"`  // a chain validated by the simplified Fabric rule (trust root: endorser c0)
 	Roles   bool              `json:"roles,omitempty"`   // role / node lifecycle scenario: observe roles, audit nodes (C16 lifecycle, C14 grant)
+	Align   bool              `json:"align,omitempty"`   // vote / withdraw address the n-th SUBMIT step (a failed submission has no proposal: the step is skipped)
 }
 
 func (p *Plan) allChains() []string {
@@ -123,6 +124,7 @@ type runner struct {
 	nrep         int
 	lastProposal string
 	pids         []string // proposals created so far (governance scenarios)
+	allPids      []string // one entry per submit step ("" if it created no proposal)
 	govMode      bool
 	diffed       map[int]bool
 	ethContract  *types.Address
@@ -955,6 +957,8 @@ func (r *runner) run(dir string) {
 				case strings.HasPrefix(x, "u64:"):
 					v, _ := strconv.ParseUint(x[4:], 10, 64)
 					args = append(args, pb.Uint64(v))
+				case strings.HasPrefix(x, "bytes:"):
+					args = append(args, pb.Bytes([]byte(x[6:])))
 				default:
 					args = append(args, pb.String(x))
 				}
@@ -973,12 +977,15 @@ func (r *runner) run(dir string) {
 			d := map[string]interface{}{"k": "gov", "from": from.Addr.String(), "to": tx.GetTo().String(), "cls": "gov", "badsig": false, "m": st.M, "amtKind": "none", "amtNum": 0, "amt": "", "obj": st.Obj, "pid": ""}
 			r.emit(map[string]interface{}{"ev": "Submit", "h": int(a.Height() + 1), "n": 1})
 			ev, res := r.pair.Exec([]pb.Transaction{tx}, []map[string]interface{}{d}, 0)
+			got := ""
 			if res != nil && res.Receipts[0].Status == pb.Receipt_SUCCESS {
 				if pid := a.ProposalIDOf(res.Receipts[0]); pid != "" {
 					r.pids = append(r.pids, pid)
 					d["pid"] = pid
+					got = pid
 				}
 			}
+			r.allPids = append(r.allPids, got)
 			if res != nil {
 				for k, v := range r.observe(a, res) {
 					ev[k] = v
@@ -993,6 +1000,12 @@ func (r *runner) run(dir string) {
 				continue
 			}
 			pid := r.pids[st.Pid%len(r.pids)]
+			if p.Align {
+				if st.Pid >= len(r.allPids) || r.allPids[st.Pid] == "" {
+					continue
+				}
+				pid = r.allPids[st.Pid]
+			}
 			from := r.acct(a, st.By)
 			var tx pb.Transaction
 			if st.Step == "vote" {
@@ -1572,7 +1585,7 @@ func genRules(rng *rand.Rand, name string) *Plan {
 // another node; a governance admin is registered, frozen, activated, logged out; proposals are approved or rejected,
 // and concluded in interleaved orders
 func genRoles(rng *rand.Rand, name string) *Plan {
-	p := &Plan{Name: name, Seed: 1, Proof: "serial", Chains: []string{"chainA"}, NSvc: 1, Black: map[string]string{}, Audit: rng.Intn(2) == 0, GovMode: true, Roles: true}
+	p := &Plan{Name: name, Seed: 1, Proof: "serial", Chains: []string{"chainA"}, NSvc: 1, Black: map[string]string{}, Audit: rng.Intn(2) == 0, GovMode: true, Roles: true, Align: true}
 	np := 0
 	adm := func() string { return fmt.Sprintf("@admin%d", rng.Intn(4)) }
 	vote := func(pid int, approve bool) {
@@ -1942,7 +1955,7 @@ func genGovElectorate(rng *rand.Rand, name string) *Plan {
 // lifecycle scenarios (C16): governance operations on services and appchains whose proposals are concluded in an
 // interleaved order (a registration approved after its chain was frozen, ...), with IBTP traffic in between
 func genLifecycle(rng *rand.Rand, name string) *Plan {
-	p := &Plan{Name: name, Seed: 1, Proof: "serial", Chains: []string{"chainA", "chainB"}, NSvc: 1, Black: map[string]string{}, Audit: rng.Intn(3) == 0}
+	p := &Plan{Name: name, Seed: 1, Proof: "serial", Chains: []string{"chainA", "chainB"}, NSvc: 1, Black: map[string]string{}, Audit: rng.Intn(3) == 0, Align: true}
 	admins := []string{"@admin0", "@admin1", "@admin2", "@admin3"}
 	var open []int
 	np := 0
@@ -1965,41 +1978,107 @@ func genLifecycle(rng *rand.Rand, name string) *Plan {
 			p.Steps = append(p.Steps, Step{Step: "block", Txs: txs})
 		}
 	}
+	by := map[int]string{} // who submitted proposal #pid (only the submitter may withdraw it)
+	sub := func(m, who, obj string, args ...string) int {
+		p.Steps = append(p.Steps, Step{Step: "submit", M: m, By: who, Obj: obj, Args: args})
+		by[np] = who
+		np++
+		return np - 1
+	}
+	conclude := func(pid int, how string) {
+		if how == "withdraw" {
+			p.Steps = append(p.Steps, Step{Step: "withdraw", Pid: pid, By: by[pid]})
+			return
+		}
+		for _, a := range admins[:3] {
+			p.Steps = append(p.Steps, Step{Step: "vote", Pid: pid, By: a, Ballot: how})
+		}
+	}
+	svcOf := func(ch string) string { return fmt.Sprintf("%s:svc%d", ch, 1+rng.Intn(nsvc[ch])) }
+	endings := []string{"approve", "reject", "withdraw"}
+	// stacked proposals: two operations pending on one object while a third one (often on the owning chain) concludes,
+	// then the pending ones conclude in either order, each approved, rejected or withdrawn
+	stacked := func() {
+		ch := []string{"chainA", "chainB"}[rng.Intn(2)]
+		sv := svcOf(ch)
+		switch rng.Intn(4) {
+		case 0: // chain frozen; activation pending; logout pending on top; both concluded
+			conclude(sub("FreezeAppchain", admins[rng.Intn(4)], ch, ch, "r"), "approve")
+			a := sub("ActivateAppchain", "admin-"+ch, ch, ch, "r")
+			l := sub("LogoutAppchain", "admin-"+ch, ch, ch, "r")
+			traffic()
+			conclude(l, endings[rng.Intn(3)])
+			traffic()
+			conclude(a, endings[rng.Intn(3)])
+		case 1: // service update pending; logout pending on top; chain frozen meanwhile; both concluded
+			u := sub("UpdateService", "admin-"+ch, ch, sv, fmt.Sprintf("nm%d", rng.Intn(999)), "intro2", "", "details", "r")
+			l := sub("LogoutService", "admin-"+ch, ch, sv, "r")
+			if rng.Intn(3) > 0 {
+				conclude(sub("FreezeAppchain", admins[rng.Intn(4)], ch, ch, "r"), "approve")
+			}
+			traffic()
+			conclude(l, endings[1+rng.Intn(2)])
+			traffic()
+			conclude(u, endings[rng.Intn(3)])
+		case 2: // chain update pending (services paused); logout pending on top; both concluded
+			u := sub("UpdateAppchain", "admin-"+ch, ch, ch, fmt.Sprintf("name-%s-%d", ch, rng.Intn(999)), "desc", "bytes:", "@admin-"+ch, "r")
+			l := sub("LogoutAppchain", "admin-"+ch, ch, ch, "r")
+			traffic()
+			conclude(l, endings[rng.Intn(3)])
+			traffic()
+			conclude(u, endings[rng.Intn(3)])
+		default: // service freeze pending; chain logout pending; chain logout rejected; freeze concluded
+			f := sub("FreezeService", admins[rng.Intn(4)], ch, sv, "r")
+			l := sub("LogoutAppchain", "admin-"+ch, ch, ch, "r")
+			traffic()
+			conclude(l, endings[rng.Intn(3)])
+			conclude(f, endings[rng.Intn(3)])
+		}
+		traffic()
+	}
+	if rng.Intn(2) == 0 {
+		stacked()
+	}
 	for i := 0; i < 10+rng.Intn(14); i++ {
-		switch c := rng.Intn(10); {
+		switch c := rng.Intn(11); {
 		case c < 3:
 			ch := []string{"chainA", "chainB"}[rng.Intn(2)]
-			switch rng.Intn(6) {
+			var pid int
+			switch rng.Intn(9) {
 			case 0:
 				nsvc[ch]++
-				p.Steps = append(p.Steps, Step{Step: "submit", M: "RegisterService", By: "admin-" + ch, Obj: ch,
-					Args: []string{ch, fmt.Sprintf("svc%d", nsvc[ch]), fmt.Sprintf("name-%s-%d-%d", ch, nsvc[ch], rng.Intn(999)), "CallContract", "intro", "u64:1", "", "details", "r"}})
+				pid = sub("RegisterService", "admin-"+ch, ch, ch, fmt.Sprintf("svc%d", nsvc[ch]), fmt.Sprintf("name-%s-%d-%d", ch, nsvc[ch], rng.Intn(999)), "CallContract", "intro", "u64:1", "", "details", "r")
 			case 1:
-				p.Steps = append(p.Steps, Step{Step: "submit", M: "FreezeAppchain", By: admins[rng.Intn(4)], Obj: ch, Args: []string{ch, "r"}})
+				pid = sub("FreezeAppchain", admins[rng.Intn(4)], ch, ch, "r")
 			case 2:
-				p.Steps = append(p.Steps, Step{Step: "submit", M: "ActivateAppchain", By: "admin-" + ch, Obj: ch, Args: []string{ch, "r"}})
+				pid = sub("ActivateAppchain", "admin-"+ch, ch, ch, "r")
 			case 3:
-				p.Steps = append(p.Steps, Step{Step: "submit", M: "FreezeService", By: admins[rng.Intn(4)], Obj: ch, Args: []string{fmt.Sprintf("%s:svc%d", ch, 1+rng.Intn(nsvc[ch])), "r"}})
+				pid = sub("FreezeService", admins[rng.Intn(4)], ch, svcOf(ch), "r")
 			case 4:
-				p.Steps = append(p.Steps, Step{Step: "submit", M: "ActivateService", By: "admin-" + ch, Obj: ch, Args: []string{fmt.Sprintf("%s:svc%d", ch, 1+rng.Intn(nsvc[ch])), "r"}})
+				pid = sub("ActivateService", "admin-"+ch, ch, svcOf(ch), "r")
+			case 5:
+				pid = sub("UpdateService", "admin-"+ch, ch, svcOf(ch), fmt.Sprintf("nm%d", rng.Intn(999)), "intro2", "", "details", "r")
+			case 6:
+				pid = sub("LogoutService", "admin-"+ch, ch, svcOf(ch), "r")
+			case 7:
+				pid = sub("UpdateAppchain", "admin-"+ch, ch, ch, fmt.Sprintf("name-%s-%d", ch, rng.Intn(999)), "desc", "bytes:", "@admin-"+ch, "r")
 			default:
-				p.Steps = append(p.Steps, Step{Step: "submit", M: "LogoutAppchain", By: "admin-" + ch, Obj: ch, Args: []string{ch, "r"}})
+				pid = sub("LogoutAppchain", "admin-"+ch, ch, ch, "r")
 			}
-			open = append(open, np)
-			np++
+			open = append(open, pid)
 		case c < 6 && len(open) > 0:
 			j := rng.Intn(len(open))
 			pid := open[j]
 			open = append(open[:j], open[j+1:]...)
-			ballot := "approve"
-			if rng.Intn(4) == 0 {
-				ballot = "reject"
+			how := "approve"
+			if rng.Intn(3) == 0 {
+				how = endings[1+rng.Intn(2)]
 			}
-			for _, a := range admins[:3] {
-				p.Steps = append(p.Steps, Step{Step: "vote", Pid: pid, By: a, Ballot: ballot})
-			}
+			conclude(pid, how)
 		case c < 9:
 			traffic()
+		case c < 10:
+			stacked()
 		default:
 			p.Steps = append(p.Steps, Step{Step: "restart"})
 		}
